@@ -23,10 +23,11 @@ pub struct Job {
     pub only_net: bool,
     /// C14 only: 0 = sim_advanced, 1 = sim()
     pub api: u8,
+    pub style: u8,
 }
 impl Job {
     fn new(trace: u32, delay_ns: u64, cset: Vec<u16>, sset: Vec<u16>) -> Job {
-        Job { trace, delay_ns, cset, sset, fr: 0, cont: true, seed: 0, pps: None, max_iter: 120, max_len: 0, only_client: false, only_net: false, api: 0 }
+        Job { trace, delay_ns, cset, sset, fr: 0, cont: true, seed: 0, pps: None, max_iter: 120, max_len: 0, only_client: false, only_net: false, api: 0, style: 0 }
     }
 }
 const FRACS: [(f64, f64, f64, f64); 2] = [(0.0, 0.0, 0.0, 0.0), (0.5, 0.5, 0.5, 0.5)];
@@ -54,6 +55,7 @@ impl Space {
         s.max_len = j.max_len;
         s.only_client = j.only_client;
         s.only_net = j.only_net;
+        s.trace_style = j.style;
         s
     }
 }
@@ -80,14 +82,18 @@ fn machine_sets(lib: &[Gadget], first: &dyn Fn(&Gadget) -> bool, second: &dyn Fn
             v.push((vec![*i, *j], vec![]));
         }
     }
-    // server-only and both sides: sub-grid
-    let sa: Vec<u16> = a.iter().step_by(if q { 5 } else { 2 }).cloned().collect();
-    let sb: Vec<u16> = b.iter().step_by(if q { 7 } else { 3 }).cloned().collect();
-    for i in &sa {
-        for j in &sb {
+    // the same pairs on the server only, and split over both sides (full mirror; thinned for the quick tier)
+    let st = if q { 2 } else { 1 };
+    for (ix, i) in a.iter().enumerate() {
+        for (jx, j) in b.iter().enumerate() {
+            if (ix + jx) % st != 0 {
+                continue;
+            }
             v.push((vec![], vec![*i, *j]));
             v.push((vec![*i], vec![*j]));
-            v.push((vec![*j], vec![*i]));
+            if ix % 2 == 0 {
+                v.push((vec![*j], vec![*i]));
+            }
         }
     }
     {
@@ -273,8 +279,12 @@ pub fn judge_c16(sys: &SimSys, stats: &mut Stats) -> JobOut {
         let (fired, v17, _, pbb) = monitors::c17_ext(&stream, n);
         // judge only the prefix on which the replay binding is consistent
         let upto = v17.as_ref().map(|v| v.at).unwrap_or(stream.len());
-        if v17.is_some() {
+        if let Some(v) = &v17 {
             stats.bump("runs_judged_on_a_prefix_only");
+            if v.sig == "C17:missed-firing" && v.msg.contains("BlockOutgoing") {
+                out.viols.push(Viol { sig: "C16:blocking-did-not-begin-when-due".into(), msg: format!("[{}] blocking must begin when a BlockOutgoing action's timeout expires: {}", if client { "client" } else { "server" }, v.msg), at: v.at });
+                break;
+            }
         }
         let (v, st) = monitors::c16(&stream[..upto], &fired, &pbb);
         stats.add("blocking_begins", st.begins);
@@ -521,6 +531,10 @@ pub fn worker_c15(ctx: &WorkerCtx) -> WorkerOut {
             if q && sp.traces[j.trace as usize].len() >= 3 && i % 3 != 0 {
                 return None;
             }
+            let mut j = j;
+            if i % 7 == 0 {
+                j.style = 1 + (i / 7 % 3) as u8;
+            }
             Some(sp.build(&j))
         } else {
             // packets-per-second limits 1 and 2, with the product's network delay and with delays
@@ -546,7 +560,18 @@ pub fn worker_c16(ctx: &WorkerCtx) -> WorkerOut {
     let sp = space(q, 3);
     let delays = [0, 2 * US, 5 * US];
     let mut sets = machine_sets(&sp.lib, &|g| g.kind == 'b', &|g| matches!(g.kind, 'b' | 'p' | 'r') || !q && g.kind == 'x', q);
-    sets.extend(bypass_interaction_triples(&sp.lib));
+    let tri = bypass_interaction_triples(&sp.lib);
+    // the same triples on the server, and split: one bypassable blocker on one side, (blocker, bypass padder) on the other
+    let mut more = vec![];
+    for (c, _) in &tri {
+        more.push((vec![], c.clone()));
+        if sp.lib[c[0] as usize].name.contains("by1") {
+            more.push((vec![c[0]], vec![c[1], c[2]]));
+            more.push((vec![c[1], c[2]], vec![c[0]]));
+        }
+    }
+    sets.extend(tri);
+    sets.extend(more);
     let pr = product(&sp, sets, &delays, &[0], &[true], &[0]);
     let n = pr.len();
     let build = |i: usize| -> Option<SimSys> {
@@ -685,6 +710,14 @@ pub fn worker_c14(ctx: &WorkerCtx) -> WorkerOut {
                 j.api = 1;
                 j.only_net = on;
                 j.max_iter = 0;
+                j.style = (t % 4) as u8;
+                jobs.push(j);
+            }
+            // the other ways of writing the same trace ("sn"/"rn", interleaved "sp"/"rp" lines the parser ignores)
+            for st in 1..4u8 {
+                let mut j = Job::new(t, d, vec![], vec![]);
+                j.max_iter = 0;
+                j.style = st;
                 jobs.push(j);
             }
         }
@@ -765,6 +798,7 @@ pub fn worker_c19(ctx: &WorkerCtx) -> WorkerOut {
         k.max_len = [0usize, 1, 5][(g / 32) % 3];
         k.max_iter = [1usize, 7, 120][(i / 96) % 3];
         k.seed = [0u64, 1, u64::MAX, 7][(i / 7) % 4];
+        k.style = (i / 11 % 4) as u8;
         jobs.push(k);
         if i % 4 == 0 {
             // the plain unfiltered run with an explicit pps limit
